@@ -248,6 +248,16 @@ def _run_case(case, rec, mon=None):
         if own:
             monitor.detach_all()
         return
+    if case["idx"] % 10 == 7 and isinstance(cfg, dict) and cfg.get("name") in gen.DOCUMENTED_ORDER:
+        # the same configuration with every constructor argument given by position, in the documented order.  (What the arguments
+        # mean is what the keyword-built computer above recorded: the monitor's record of the positional one is replaced by it.)
+        try:
+            c2 = gen.build_positional(cfg)
+            compmon.adopt(c2, comp)
+            comp = c2
+            rec.count("computers_built_with_positional_arguments")
+        except Exception as e:
+            rec.violation(dict(what="building an STFT computer with positional arguments in the documented order raised %r" % (e,), case=case, check="positional"))
     if case["idx"] % 9 == 4:
         # the computer as a worker process gets it: a deep copy or a pickle round trip - a computer of the same configuration
         from ..common import copied
@@ -278,6 +288,15 @@ def _run_case(case, rec, mon=None):
             rec.count("recordings_with_120dB_dynamic_range")
         x = gen.signal(rng, int(N), kind, dt, views=True)
         x.setflags(write=False)
+        if case["idx"] % 4 == 2 and j == len(pick) - 1 and N >= fl:
+            # first a call that fails half way: a signal of a type the transform refuses (complex samples, Python objects) raises from
+            # inside the computation.  A call that raised has computed nothing and has left nothing behind for the next one
+            for bad in (x.astype(np.complex128), x.astype(object)):
+                try:
+                    comp.compute_full(bad)
+                    rec.count("refused_signal_types_accepted")
+                except Exception:
+                    rec.count("compute_full_calls_that_raised_before_the_judged_one")
         try:
             if j % 5 == 4:
                 with monitor.strict_settings():  # settings a user may choose: FP division by zero raises, UserWarnings are errors
